@@ -90,7 +90,7 @@ def run_one(ctx, imp, store, flavour, seed_tag, length, voc):
             state['bad'] = True
             return False
         return None
-    topogen.run_history(rng, topo, length, flavour, hook)
+    topogen.run_history(rng, topo, length, flavour, hook, ambiguous_names_ok=True)
     return state
 
 
